@@ -67,3 +67,131 @@ func VerifC03_paddedTemplate() {
 	}
 	vfReach("end")
 }
+
+func init() {
+	vfRegister("VerifC03_manyFields", VerifC03_manyFields)
+	vfRegister("VerifC03_chunks", VerifC03_chunks)
+}
+
+// c03cuts chooses a partition of n bytes into 2..maxChunks consecutive non-empty chunks (every such partition is
+// one path) and returns the cut positions.
+func c03cuts(n, maxChunks int) []int {
+	nc := 2 + vfChoice("chunks", maxChunks-1)
+	var cuts []int
+	prev := 0
+	for i := 1; i < nc; i++ {
+		// leave room for the remaining nc-i chunks
+		room := n - prev - (nc - i)
+		if room < 1 {
+			vfAssume(false)
+		}
+		prev += 1 + vfChoice("cut", room)
+		cuts = append(cuts, prev)
+	}
+	return cuts
+}
+
+// c03feed writes block to r in the chunks given by cuts, then closes.
+func c03feed(r *c03run, block []byte, cuts []int) {
+	prev := 0
+	for _, c := range append(append([]int(nil), cuts...), len(block)) {
+		if r.failed {
+			return
+		}
+		_, err := r.d.Write(append([]byte(nil), block[prev:c]...))
+		r.failed = err != nil
+		prev = c
+	}
+	if !r.failed {
+		r.failed = r.d.Close() != nil
+	}
+}
+
+func c03compare(a, b *c03run) {
+	vfAssert(a.failed == b.failed, "same success/failure whether or not the block is split")
+	// fields emitted before a failure are the same too (the failing representation is the same one)
+	vfAssert(c03sameFields(a.fields, b.fields), "same emitted fields")
+	vfAssert(c03sameTable(a.d, b.d), "same dynamic table")
+	if !a.failed {
+		vfAssert(b.d.saveBuf.Len() == 0, "nothing buffered after a complete block")
+		vfReach("accepted")
+	} else {
+		vfReach("rejected")
+	}
+	vfObserve("nfields", uint64(len(a.fields)))
+}
+
+// VerifC03_manyFields: a block much longer than one field (and longer than the decoder's bound on a buffered
+// incomplete field, 2*(maxStrLen+11) bytes) under a small SetMaxStringLength: seven complete fields (six literals with
+// names of 0..2 and values of 0..2 bytes in all three literal forms, one indexed field referring to the first), every partition into 2..4
+// chunks (thorough 2..5). Structure concrete, string bytes of the non-indexing literals symbolic.
+// A chunk that ends inside a field may be followed by a chunk that completes it and carries many further fields.
+func VerifC03_manyFields() {
+	maxStr := 1 + vfChoice("maxstr", 3) // 2 or 3: bound 26 / 28 bytes, block 33 bytes; 1: the first name is too long
+	shapes := [][3]int{{0x40, 2, 0}, {0x00, 1, 1}, {0x10, 0, 2}, {0x00, 2, 2}, {0x40, 1, 0}, {0x10, 2, 1}}
+	var block []byte
+	for i, sh := range shapes {
+		block = append(block, byte(sh[0]), byte(sh[1]))
+		for j := 0; j < sh[1]; j++ {
+			if sh[0] == 0x40 {
+				block = append(block, byte('a'+i)) // indexed names stay concrete (symbolic map keys fork)
+			} else {
+				block = append(block, vfU8("namebyte"))
+			}
+		}
+		block = append(block, byte(sh[2]))
+		for j := 0; j < sh[2]; j++ {
+			block = append(block, vfU8("valuebyte"))
+		}
+		if i == 2 {
+			block = append(block, 0xbe) // indexed field: index 62 = the first field of this block (static entries exceed maxStr)
+		}
+	}
+	maxChunks := 4
+	if vfTier() > 0 {
+		maxChunks = 5
+	}
+	cuts := c03cuts(len(block), maxChunks)
+
+	a := c03decoder(maxStr, false)
+	c03feed(a, block, nil)
+	if maxStr >= 2 {
+		vfAssert(!a.failed && len(a.fields) == len(shapes)+1, "the block is accepted in a single Write")
+	} else {
+		vfAssert(a.failed && len(a.fields) == 0, "the block is rejected at its first field in a single Write")
+	}
+	b := c03decoder(maxStr, false)
+	c03feed(b, block, cuts)
+	c03compare(a, b)
+	if len(cuts) > 0 && cuts[len(cuts)-1] < len(block)-2*(maxStr+11) {
+		vfReach("last-chunk-longer-than-the-field-bound")
+	}
+	vfReach("end")
+}
+
+// VerifC03_chunks: n symbolic bytes in every partition into 2..3 chunks (VerifC03_split: one split point). Bytes are
+// below 0x80 (no indexed fields, no Huffman strings: those are covered by VerifC03_split) and index bits are
+// restricted by c03allowed, so the blocks are sequences of literals (every form, new or indexed name, string lengths
+// symbolic: truncated, complete, followed by further representations) and table size updates.
+// Covers resumption histories of more than two steps: a field saved twice (first inside one string, then further
+// along) before the rest arrives in short chunks.
+func VerifC03_chunks() {
+	n := 5
+	if vfTier() > 0 {
+		n = vfLen("n", 5, 6)
+	}
+	block := vfBytes("block", n)
+	for _, b := range block {
+		vfAssume(vfAnd(b < 0x80, c03allowed(b)))
+	}
+	cuts := c03cuts(n, 3)
+	a := c03decoder(0, true)
+	c03feed(a, block, nil)
+	b := c03decoder(0, true)
+	c03feed(b, block, cuts)
+	c03compare(a, b)
+	if len(cuts) == 2 {
+		vfReach("three-chunks")
+	}
+	vfReach("end")
+}
